@@ -110,13 +110,68 @@ fn stderr_tail(srv: &ChildSrv) -> String {
     s.chars().skip(n.saturating_sub(1500)).collect()
 }
 
+fn vm_hwm_kib(pid: u32) -> Option<u64> {
+    let st = std::fs::read_to_string(format!("/proc/{pid}/status")).ok()?;
+    st.lines().find(|l| l.starts_with("VmHWM:"))?.split_whitespace().nth(1)?.parse().ok()
+}
+
+/// A body far over the limit that arrives in pieces each WITHIN the limit (chunks of
+/// 4000 bytes against a 4096-byte limit, 192 MiB in all) to every buffering extractor:
+/// whatever the answer, the server must not keep it — the child's peak resident set
+/// may not grow by anything like the body's size.
+fn oversized_stream_group(rep: &mut Report, addr: SocketAddr, pid: u32, mode_tag: &str, seed: u64) {
+    use std::io::Write;
+    const TOTAL: usize = 192 << 20;
+    for (path, ct) in [("/raw", "application/octet-stream"), ("/json", "application/json"), ("/form", "application/x-www-form-urlencoded")] {
+        let Some(before) = vm_hwm_kib(pid) else {
+            rep.inconclusive("cannot read the child's VmHWM");
+            return;
+        };
+        let Ok(mut sock) = std::net::TcpStream::connect(addr) else {
+            rep.inconclusive("connect");
+            continue;
+        };
+        let _ = sock.set_write_timeout(Some(Duration::from_secs(20)));
+        let head = format!("POST {path} HTTP/1.1\r\nhost: a\r\ncontent-type: {ct}\r\nx-vmon-uid: 0\r\ntransfer-encoding: chunked\r\n\r\n");
+        let mut chunk = b"fa0\r\n".to_vec();
+        chunk.extend(std::iter::repeat(if path == "/json" { b' ' } else { b'a' }).take(4000));
+        chunk.extend_from_slice(b"\r\n");
+        let mut sent = 0usize;
+        if sock.write_all(head.as_bytes()).is_ok() {
+            // several chunks per write; a refusal may close the connection early
+            let batch: Vec<u8> = chunk.iter().cycle().take(chunk.len() * 16).copied().collect();
+            while sent < TOTAL {
+                if sock.write_all(&batch).is_err() {
+                    break;
+                }
+                sent += 4000 * 16;
+            }
+            let _ = sock.write_all(b"0\r\n\r\n");
+        }
+        drop(sock);
+        std::thread::sleep(Duration::from_millis(200));
+        let after = vm_hwm_kib(pid).unwrap_or(before);
+        let grown = after.saturating_sub(before);
+        rep.eval(format!("oversized-in-small-chunks|{path}|{mode_tag}|sent~{}MiB", sent >> 20));
+        rep.count("oversized_stream_bytes_sent", sent as u64);
+        if grown > (96 << 10) && sent > (128 << 20) {
+            rep.violate(
+                "C18:server-memory-grows-with-oversized-body",
+                json!({"seed": seed, "mode": mode_tag, "path": path, "body_limit": 4096, "chunk_size": 4000, "body_bytes_sent": sent,
+                       "child_peak_rss_before_kib": before, "child_peak_rss_after_kib": after,
+                       "what": "a body 49152 times the limit, sent in chunks each within the limit, was kept in memory by the server process"}),
+            );
+        }
+    }
+}
+
 pub fn run(seed: u64, quick: bool) -> Report {
     let mut rep = Report::new(
         "C18",
         "E2-hostile-traffic-vs-server-process",
         "the server runs in a child process of its own (both task modes); fault groups: requests announcing body sizes from 2^31 to \
          beyond 2^64 (Content-Length or chunk size) to every body extractor with 0 / few / many bytes actually sent, then FIN / RST / hold; \
-         HTTP/2 streams over and under the body limit reset with each RST_STREAM reason, dropped with the connection, or ended short of their \
+         a 192 MiB body in 4000-byte chunks (each within the 4096-byte limit) to every buffering extractor while the child's peak resident set is read from /proc (growth by more than 96 MiB = the body was kept); HTTP/2 streams over and under the body limit reset with each RST_STREAM reason, dropped with the connection, or ended short of their \
          content-length, 1-8 streams at once; a sample of the random HTTP/1.1 faults of c18-hostile.  Oracle after every group: the child \
          process is still running (no abort, no signal), a fresh-connection health probe is answered, no announced-but-unsent body is \
          answered 2xx; at the end the child closes gracefully with exit status 0.  class = fault class x end x mode",
@@ -148,6 +203,9 @@ pub fn run(seed: u64, quick: bool) -> Report {
             randoms.push(f);
         }
         groups.push(("random-faults", Box::new(move |rep: &mut Report| drive(rep, addr, randoms, 8, mode_tag, seed))));
+        let pid = srv.child.id();
+        let mt: &'static str = mode_tag;
+        groups.insert(1, ("oversized-in-small-chunks", Box::new(move |rep: &mut Report| oversized_stream_group(rep, addr, pid, mt, seed))));
         let mut dead = false;
         for (gname, g) in groups {
             g(&mut rep);
